@@ -8,7 +8,7 @@
    Imports only GoSem, GenLeaf and the hand models (NOT GenLeafProofs). *)
 (* PREAMBLE *)
 From Coq Require Import ZArith Bool List.
-From Arsenal Require Import Util Gran Tlsf Pass Linear SyncMem GoSem GenLeaf.
+From Arsenal Require Import Util Gran Tlsf Pass Linear SyncMem Select GoSem GenLeaf.
 Import ListNotations.
 Open Scope Z_scope.
 
@@ -27,6 +27,7 @@ Definition outcome_eqb {A S : Type} (ea : A -> A -> bool) (es : S -> S -> bool) 
   match x, y with
   | Ret a, Ret b => ea a b
   | Panic s, Panic u => es s u
+  | Diverge, Diverge => true
   | _, _ => false
   end.
 
@@ -205,6 +206,7 @@ Definition diff_incrementCounters :=
        match GenLeaf.incrementCounters maxb maxa bm am bytes with
        | Ret (b, bm', am') => ((if b : bool then 1 else 0), bm', am', true)
        | Panic (bm', am') => (2, bm', am', true)
+       | Diverge => (3, 0, 0, true)
        end)
     (fun '(maxb, maxa, bm, am, bytes) =>
        let p := t_pass2 maxb maxa bm am in
@@ -249,4 +251,62 @@ Definition diff_postMapUnmap :=
                   (zrange 0 4 ++ [- 1; - 2; - 3; 2 ^ 31 - 2; 2 ^ 31 - 1; - 2 ^ 31; - 2 ^ 31 + 1])) [false; true]).
 (* CHECK *)
 Example sweep_postMapUnmap : diff_postMapUnmap = None. Proof. vm_compute. reflexivity. Qed.
+
+(* FUNC findMemoryPreferences *)
+Definition t_bufimgs : list (option N) := [None; Some 0%N; Some 1%N; Some 3%N; Some 4%N; Some 16%N; Some 4294967295%N].
+Definition t_has (b : option N) : bool := match b with Some _ => true | None => false end.
+Definition t_val (b : option N) : Z := match b with Some u => Z.of_N u | None => 0 end.
+Definition t_show_b (b : option N) : Z := match b with Some u => Z.of_N u | None => -1 end.
+Definition z3_eqb (x y : Z * Z * Z) : bool :=
+  let '(a, b, c) := x in let '(a', b', c') := y in (a =? a') && (b =? b') && (c =? c').
+Definition t_z3 (t : N * N * N) : Z * Z * Z := let '(a, b, c) := t in (Z.of_N a, Z.of_N b, Z.of_N c).
+(* arguments printed: integrated usage flags required preferred bufferOrImageUsage(-1 = nil) *)
+Definition diff_findMemoryPreferences :=
+  first_diff (fun '(ig, us, fl, rq, pf, bi) => [(if ig : bool then 1 else 0); Z.of_N us; Z.of_N fl; Z.of_N rq; Z.of_N pf; t_show_b bi])
+    z3_eqb (fun _ => true)
+    (fun '(ig, us, fl, rq, pf, bi) =>
+       GenLeaf.findMemoryPreferences ig (Z.of_N us) (Z.of_N fl) (Z.of_N rq) (Z.of_N pf) (t_has bi) (t_val bi))
+    (fun '(ig, us, fl, rq, pf, bi) => t_z3 (find_prefs ig us fl rq pf bi))
+    (prod2 (prod2 (prod2 (prod2 (prod2 [false; true] [0; 1; 2; 3; 4; 5]%N) [0; 1; 4; 128; 256; 512; 384; 640; 768; 896]%N)
+                         [0; 2; 64; 128; 2147483647]%N) [0; 1; 8; 64; 128]%N) t_bufimgs).
+(* CHECK *)
+Example sweep_findMemoryPreferences : diff_findMemoryPreferences = None. Proof. vm_compute. reflexivity. Qed.
+
+(* FUNC findMemoryTypeIndex *)
+Definition t_bufimgs2 : list (option N) := [None; Some 3%N; Some 16%N].
+Definition t_has2 (b : option N) : bool := match b with Some _ => true | None => false end.
+Definition t_val2 (b : option N) : Z := match b with Some u => Z.of_N u | None => 0 end.
+Definition t_tables : list (list N) :=
+  [[]; [1]; [0; 1; 6; 7; 14]; [6; 1; 7; 15; 1; 6]; [65; 193; 1; 7]; [16; 17; 2; 10; 3; 11; 1]]%N.
+Definition t_found (r : option nat) : outcome (Z * Z * bool) unit :=
+  match r with Some i => Ret (Z.of_nat i, 0, false) | None => Ret (-1, -8, true) end.
+Definition res3_eqb (x y : Z * Z * bool) : bool :=
+  let '(a, b, c) := x in let '(a', b', c') := y in (a =? a') && (b =? b') && Bool.eqb c c'.
+(* arguments printed: table# integrated usage flags typeBits o.MemoryTypeBits global required preferred usage(-1 = nil) *)
+Definition diff_findMemoryTypeIndex :=
+  first_diff (fun '(ti, ig, us, fl, tb, ctb, gl, rq, pf, bi) =>
+                [Z.of_nat ti; (if ig : bool then 1 else 0); Z.of_N us; Z.of_N fl; Z.of_N tb; Z.of_N ctb; Z.of_N gl; Z.of_N rq; Z.of_N pf;
+                 match bi with Some u => Z.of_N u | None => -1 end])
+    (outcome_eqb res3_eqb unit_eqb) (fun _ => true)
+    (fun '(ti, ig, us, fl, tb, ctb, gl, rq, pf, bi) =>
+       GenLeaf.findMemoryTypeIndex (Z.of_N gl) ig (Z.of_N us) (Z.of_N fl) (Z.of_N rq) (Z.of_N pf) (t_has2 bi) (t_val2 bi)
+                                   (Z.of_N ctb) (map Z.of_N (nth ti t_tables [])) (Z.of_N tb))
+    (fun '(ti, ig, us, fl, tb, ctb, gl, rq, pf, bi) =>
+       let '(req, pref, npref) := find_prefs ig us fl rq pf bi in
+       t_found (find_type (nth ti t_tables []) gl tb ctb req pref npref))
+    (prod2 (prod2 (prod2 (prod2 (prod2 (prod2 (prod2 (prod2 (prod2 (seq 0 6) [false; true]) [0; 1; 2; 4]%N) [0; 128; 256]%N)
+                                       [0; 5; 15; 4294967295]%N) [0; 5]%N) [4294967295; 3]%N) [0; 2]%N) [0; 8]%N) t_bufimgs2).
+(* CHECK *)
+Example sweep_findMemoryTypeIndex : diff_findMemoryTypeIndex = None. Proof. vm_compute. reflexivity. Qed.
+
+(* FUNC shouldCompactFirstVector *)
+Definition t_linear (nb nm : Z) (n : nat) : linear :=
+  mkL 1000 1 (mkGran HFake 1 []) (repeat (mkSub 0 1 None 1 1 1) n) [] false MEmpty 0 nb nm 0.
+Definition diff_shouldCompactFirstVector :=
+  first_diff (fun '(nb, nm, n) => [nb; nm; Z.of_nat n]) Bool.eqb (fun _ => true)
+    (fun '(nb, nm, n) => GenLeaf.shouldCompactFirstVector nb nm (Z.of_nat n))
+    (fun '(nb, nm, n) => should_compact (t_linear nb nm n))
+    (prod2 (prod2 [0; 1; 10; 19; 20; 21; 30; 40; 60] [0; 1; 5; 10]) [0; 1; 31; 32; 33; 34; 35; 40; 50; 100]%nat).
+(* CHECK *)
+Example sweep_shouldCompactFirstVector : diff_shouldCompactFirstVector = None. Proof. vm_compute. reflexivity. Qed.
 (* END *)
